@@ -355,9 +355,25 @@ def step (_ : Unit) (l : Line) : Step Unit :=
     { r with tags := "string-instantiation" :: r.tags.map (fun t => if t == op then "str:" ++ op else t) }
   | _, _ => stepCore l
 
+/-- `rangeu` / `rangerightu`: `Range` / `RangeRight` instantiated with `uint64` in the harness.  The generator stays in
+the domain where the unsigned instantiation means what the `int` one means (all arguments ≥ 0, ascending, no sum
+reaches 2^64): the answers must be those of `range` / `rangeright`, also above 2^63. -/
+def unU (l : Line) : Line :=
+  if l.op == "rangeu" then { l with op := "range" }
+  else if l.op == "rangerightu" then { l with op := "rangeright" }
+  else l
+
 def kind : Kind where
   σ := Unit
   init := fun _ => some ()
-  step := step
+  step := fun st l =>
+    let inDomain := match l.args with
+      | [a] => match a.ints? with
+        | some xs => xs.all (fun x => decide (0 ≤ x ∧ x < 18446744073709551616 - 1000))
+        | none => false
+      | _ => false
+    if (l.op == "rangeu" || l.op == "rangerightu") && !inDomain then
+      { st := st, bad := some "rangeu: argument outside the unsigned domain" }
+    else step st (unU l)
 
 end GoguVerif.Kinds.C13
